@@ -143,6 +143,12 @@ LINTS = [
      "a language value is compared with \"c++\" after it was normalised to \"cxx\""),
     ("write-only-key", lints.write_only_key, {"C01", "C04"},
      "a key is stored in the one of attrs / metaattrs that nobody reads it from"),
+    ("identity-test-on-option", lints.identity_test_on_option, BEHAVIOURAL | {"C15", "C14"},
+     "an option or wrap flag is compared with `is False` / `is True`: 0 / 1 from the YAML file or --option are not the singletons"),
+    ("dead-validation-flag", lints.validation_flag_never_set, {"C17"},
+     "a diagnostic is guarded by a flag that nothing ever sets"),
+    ("snapshot-before-update", lints.snapshot_before_update, BEHAVIOURAL | {"C14"},
+     "a deep copy of a list is taken before the originals have received what the user wrote for them"),
     ("odd-source", lints.odd_source_in_copy_run, BEHAVIOURAL | {"C15"},
      "one statement of a run of same-shaped attribute copies takes its value from another object or another attribute"),
     ("sibling-assignments", lints.sibling_assignments_diverge, BEHAVIOURAL,
